@@ -425,8 +425,11 @@ def blocking_mode_restored(chk, prog, rule="R7.blocking_restored"):
     rets = core.return_blocks(b)
     for n in nb:
         starts = []
-        tb = core.bool_test_of_call(b, [blk for blk, t in b.calls_to(r"Result::<T, E>::is_err$") if desc_contains(describe(prog, b, t["args"][0]), lambda y: y[0] == "call" and len(y) > 3 and y[3] == n)][0]) \
-            if [blk for blk, t in b.calls_to(r"Result::<T, E>::is_err$") if desc_contains(describe(prog, b, t["args"][0]), lambda y: y[0] == "call" and len(y) > 3 and y[3] == n)] else None
+        def _is_the_call(d):
+            d = panics._strip(d)
+            return isinstance(d, tuple) and d and d[0] == "call" and len(d) > 3 and d[3] == n
+        tests_ = [blk for blk, t in b.calls_to(r"Result::<T, E>::is_err$") if _is_the_call(describe(prog, b, t["args"][0]))]
+        tb = core.bool_test_of_call(b, tests_[0]) if tests_ else None
         if tb:
             starts = [tb[2]]     # is_err() == false: the socket is now non-blocking
         else:
@@ -438,6 +441,12 @@ def blocking_mode_restored(chk, prog, rule="R7.blocking_restored"):
                     ok_edges = ok_edges or some_edge_of(prog, b, mb, "Ok")
             starts = [tgt for _, tgt in ok_edges] or b.succs(n)
         w = core.must_pass(b, starts, rets, through_nodes=bl, after_from=False)
+        if w is not None:
+            # (path-insensitively a lowered `map_err(..)?` lets the Ok arm reach the `?`'s error exit: decide on the product with the variant store)
+            from .. import absreach
+            reach = absreach.feasible_from(b, starts, prog, stop=set(bl))
+            if not [r for r in rets if r in reach and r not in bl]:
+                w = None
         chk.ob(rule, fn, "set_nonblocking() succeeded -> every return passes set_blocking()", w is None and bool(bl),
                "the probe can return (e.g. `nothing yet`) with the socket still non-blocking: later blocking receives fail with WouldBlock and large sends are cut short mid-frame",
                path=w)
